@@ -46,6 +46,12 @@ def mhaSpec (th e : κ → κ) (m : MHA κ) (q : List κ) (ks vs : List (List κ
     (mask : Option (List Bool)) : List κ :=
   linear m.WC m.bC ((List.range m.numHeads).map (headSpec th e m q ks vs mask)).flatten
 
+/-- `mhaSpec` with head `h` using `eh h` in place of `exp` (see `mhaForwardH`). -/
+def mhaSpecH (th : κ → κ) (eh : Nat → κ → κ) (m : MHA κ) (q : List κ) (ks vs : List (List κ))
+    (mask : Option (List Bool)) : List κ :=
+  linear m.WC m.bC
+    ((List.range m.numHeads).map (fun h => headSpec th (eh h) m q ks vs mask h)).flatten
+
 /-- "A bias exactly on the projections for which one was requested". -/
 def BiasAsRequested (f : BiasFlags) (m : MHA κ) : Prop :=
   m.bQ.isSome = f.wq ∧ m.bK.isSome = f.wk ∧ m.bV.isSome = f.wv ∧ m.bC.isSome = f.wc
